@@ -126,6 +126,31 @@ def describe(pid, cfg, w, ctx):
         rep['first_result'] = tok_sc(w['expected'], en)
         rep['model_actual'] = tok_sc(w['actual'], en)
         rep['expected'] = "the counterpart of " + tok_sc(w['expected'], en)
+    elif kind == 'evstep':
+        bits, mode = inp[0], inp[1]
+        def tok_step(code):
+            if not code or code == [0]:
+                return 'P'
+            if len(code) == 2:
+                return '%d %d -' % (code[0], code[1])
+            nb, nm, r = code[0], code[1], code[2:]
+            if r[0] == 1:
+                t = 'none'
+            elif r[0] == 2:
+                t = 'raw:' + en['KeyCode'][r[1]]
+            elif r[0] == 3:
+                t = 'cons:%s:%d:%d' % (en['KeyCode'][r[1]], r[2], r[3])
+            else:
+                t = 'uni:%d' % r[1]
+            return '%d %d %s' % (nb, nm, t)
+        if inp[2] == 999:
+            rep['input_text'] = "state mods=%03x mode=%s; set_ctrl_handling(%s)" % (bits, en['HandleControl'][mode], en['HandleControl'][inp[3]])
+            rep['harness_cmd'] = ['replay', 'evstep', str(bits), en['HandleControl'][mode], 'mode', en['HandleControl'][inp[3]]]
+        else:
+            rep['input_text'] = "state mods=%03x mode=%s; event %s %s" % (bits, en['HandleControl'][mode], en['KeyCode'][inp[2]], en['KeyState'][inp[3]])
+            rep['harness_cmd'] = ['replay', 'evstep', str(bits), en['HandleControl'][mode], en['KeyCode'][inp[2]], en['KeyState'][inp[3]]]
+        rep['expected'] = tok_step(w['expected'])
+        rep['model_actual'] = tok_step(w['actual'])
     elif kind == 'layout':
         form = {0: '', 1: 'Any.', 2: 'Ref.'}[inp[0]] if len(inp) > 4 else ''
         if len(inp) > 4:
@@ -140,5 +165,7 @@ def describe(pid, cfg, w, ctx):
     if rep.get('harness_cmd') and os.path.exists(ctx.HARNESS):
         rc, out, dt = ctx.sh([ctx.HARNESS] + rep['harness_cmd'])
         rep['crate_actual'] = out.strip()
-        rep['confirmed_on_crate'] = (out.strip().split(' ')[-1] == rep.get('model_actual')) if rep.get('model_actual') else None
+        got = out.strip()
+        ma = rep.get('model_actual')
+        rep['confirmed_on_crate'] = (got.split(' ')[-1] == ma or got.endswith(' ' + ma) or got == ma) if ma else None
     return rep
